@@ -14,6 +14,7 @@ from concurrent.futures import ThreadPoolExecutor
 
 REPO = os.environ.get("VERIF_REPO", "/repo")
 VERIF = os.path.dirname(os.path.dirname(os.path.abspath(__file__)))
+OUT = os.environ.get("VERIF_OUT", VERIF)     # evidence/ and replay/ go here (trial runs against seeded trees redirect it)
 
 
 class ExtractError(Exception):
@@ -377,7 +378,7 @@ class Job:
     def __init__(self, name, c_text, kind, entry="harness", enforce=None, replace=(), loop_contracts=False,
                  unwind=None, solver=None, timeout=120, extra=(), covers=(), expect_fail=(), defines=(),
                  bounded=None, functions=(), nondet_static=False, rec=False, mem_gb=8, group=None, split=None,
-                 split_timeout=60):
+                 split_timeout=60, split_chunk=1):
         self.name, self.c_text, self.kind, self.entry = name, c_text, kind, entry
         self.enforce, self.replace, self.loop_contracts = enforce, list(replace), loop_contracts
         self.unwind, self.solver, self.timeout, self.extra = unwind, solver, timeout, list(extra)
@@ -392,6 +393,7 @@ class Job:
         self.group = group or name
         self.split = split                 # regex: obligations run one by one (--property, sliced)
         self.split_timeout = split_timeout
+        self.split_chunk = split_chunk
         self.results = {}                  # obligation -> 'SUCCESS' | 'FAILURE' | ...
         self.status = None                 # 'ok' | 'timeout' | 'error'
         self.seconds = 0.0
@@ -518,13 +520,22 @@ def exec_split(job, base, d, t0, log, fail):
     runs = []
     if rest:
         runs.append((None, base + ["--trace"] + sum((["--property", p["name"]] for p in rest), []), job.timeout))
-    for p in hard:
-        runs.append((p, base + ["--trace", "--slice-formula", "--property", p["name"]], job.split_timeout))
+    for k in range(0, len(hard), job.split_chunk):
+        chunk = hard[k:k + job.split_chunk]
+        runs.append((chunk, base + ["--trace", "--slice-formula"] + sum((["--property", p["name"]] for p in chunk), []),
+                     job.split_timeout))
 
     def one(r):
         p, cmd, to = r
         rc, so, se, sec = run(cmd, d, to, job.mem_gb)
         if rc == -9:
+            if p is not None and len(p) > 1:
+                # a chunk timed out: retry its members one by one so that one hard obligation cannot mask the others
+                res = []
+                for q in p:
+                    c2 = base + ["--trace", "--slice-formula", "--property", q["name"]]
+                    res.append(one(([q], c2, to)))
+                return (p, "multi", res)
             return (p, "timeout", None)
         parsed = _parse_cbmc_json(so)
         if parsed[0] is None or parsed[3] is None:
@@ -533,7 +544,13 @@ def exec_split(job, base, d, t0, log, fail):
 
     with ThreadPoolExecutor(max_workers=8) as ex:
         outs = list(ex.map(one, runs))
-    for (p, st, parsed) in outs:
+    flat = []
+    for o in outs:
+        if o[1] == "multi":
+            flat += o[2]
+        else:
+            flat.append(o)
+    for (p, st, parsed) in flat:
         if st == "ok":
             results.update(parsed[0])
             traces.update(parsed[1])
@@ -544,7 +561,8 @@ def exec_split(job, base, d, t0, log, fail):
         elif p is None:
             return fail(st, "batch part: %s" % (parsed or ""))
         else:
-            results[p["name"]] = ("TIMEOUT" if st == "timeout" else "ERROR", p.get("description", ""))
+            for q in p:
+                results[q["name"]] = ("TIMEOUT" if st == "timeout" else "ERROR", q.get("description", ""))
     job.results, job.traces = results, traces
     job.status, job.log, job.seconds = "ok", "\n".join(log), time.time() - t0
     return job
@@ -664,7 +682,7 @@ class Report:
         return self
 
     def write_replay(self, job, key, label, desc, replay_cb):
-        rdir = os.path.join(VERIF, "replay")
+        rdir = os.path.join(OUT, "replay")
         os.makedirs(rdir, exist_ok=True)
         fn = os.path.join(rdir, "%s-%s.json" % (self.prop_id, re.sub(r"[^\w.-]", "_", job.name + "-" + label)[:150]))
         rec = {"property": self.prop_id, "job": job.name, "obligation": label, "cbmc_property": key,
@@ -723,8 +741,8 @@ class Report:
             "wall_s": round(wall, 1),
             "violations": len(self.violations),
         }
-        os.makedirs(os.path.join(VERIF, "evidence"), exist_ok=True)
-        json.dump(ev, open(os.path.join(VERIF, "evidence", self.prop_id + ".json"), "w"), indent=1)
+        os.makedirs(os.path.join(OUT, "evidence"), exist_ok=True)
+        json.dump(ev, open(os.path.join(OUT, "evidence", self.prop_id + ".json"), "w"), indent=1)
         self.out("SUMMARY property=%s tier=%s obligations=%d discharged=%d known=%d violations=%d inconclusive=%d "
                  "covers=%d wall=%.0fs" % (self.prop_id, self.tier, self.obligations, self.discharged, len(self.known),
                                            len(self.violations), len(self.inconclusive), self.covers_ok, wall))
